@@ -64,6 +64,27 @@ def h_entries(eng, names):
         eng.prove(Eq(back.magnitude, value * Fraction(1000) ** kg), f"get_base_units:{name}")
 
 
+def h_entries_float(eng, names):
+    """the same table in the float registry: to within a few ulp; temperatures likewise"""
+    ureg = regs.float_default()
+    tab = {n: (v, vec, sym) for n, v, vec, sym in stdtable.entries()}
+    for name in names:
+        value, vec, sym = tab[name]
+        kg = vec.get("kg", 0)
+        want = value * Fraction(1000) ** kg
+        r = ureg.Quantity(1.0, name).to_root_units()
+        eng.prove(abs(Fraction(r.magnitude) / want - 1) <= Fraction(1, 10**14), f"float-value:{name}")
+        f, _ru = ureg.get_root_units(name)
+        eng.prove(abs(Fraction(f) / want - 1) <= Fraction(1, 10**14), f"float-get_root_units:{name}")
+        if sym is not None:
+            eng.prove(format(ureg.Unit(name), "~") == sym, f"float-symbol:{name}")
+    for name, sc, off, sym in stdtable.temperatures():
+        for t in (0.0, 100.0, -40.0, 451.0):
+            got = ureg.Quantity(t, name).to("kelvin").magnitude
+            want = Fraction(t) * sc + off
+            eng.prove(abs(Fraction(got) - want) <= Fraction(1, 10**11), f"float-temperature:{name}:{t}")
+
+
 def h_temperatures(eng):
     ureg = regs.default(eng)
     for name, s, o, sym in stdtable.temperatures():
@@ -126,6 +147,8 @@ def cases(tier, seed):
     for i in range(0, len(names), 12):
         chunk = names[i : i + 12]
         out.append(Case("H20.table", f"{i:03d}:{chunk[0]}", M, "h_entries", {"names": chunk}, validate=1))
+    for i in range(0, len(names), 60):
+        out.append(Case("H20.table", f"float:{i:03d}", M, "h_entries_float", {"names": names[i : i + 60]}, kind="conc"))
     out.append(Case("H20.temperature", "all", M, "h_temperatures", {}, validate=1))
     out.append(Case("H20.prefix", "all", M, "h_prefixes", {}, validate=1))
     for u in SI_UNITS:
